@@ -80,7 +80,8 @@ class CallMixin(object):
                 i, j = z3.Ints('qi qj')
                 elems = z3.Select(self.harr(st, '$ELEM'), r)
                 n_ = self.list_len(st, r)
-                body = z3.Implies(And(0 <= i, i < j, j < n_), z3.Select(elems, i) != z3.Select(elems, j))
+                off_ = self.list_off(st, r)
+                body = z3.Implies(And(0 <= i, i < j, j < n_), z3.Select(elems, off_ + i) != z3.Select(elems, off_ + j))
                 return V(mkB(z3.ForAll([i, j], body)), parse_spec('bool'))
             if n == 'attr_of':
                 return self.glist_attr(st, self.eval(st, e.args[0]), self.eval(st, e.args[1]))
@@ -327,6 +328,17 @@ class CallMixin(object):
             self.assume(st, Val.is_R(t))
             self.known_ref(st, t)
             return V(t, None)
+        if name == '__ptradd':
+            pv, k = args
+            self.trust('arrays of structs: consecutive elements are consecutive references (pointer arithmetic on references)')
+            return V(mkR(Val.r(pv.t) + Val.i(k.t)), pv.hint)
+        if name == '__ptrint':
+            return V(mkI(Val.r(args[0].t)), parse_spec('int'))
+        if name == '__newstruct':
+            from .model import _lookup_class
+            cls = _lookup_class(self.const_str(args[0]))
+            r = self.new_ref(st, cls)
+            return V(mkR(r), TypeSpec('obj', (cls,), exact=True))
         if name == '__cdiv':
             a, b = args
             ai, bi = Val.i(a.t), Val.i(b.t)
@@ -454,6 +466,7 @@ class CallMixin(object):
                 nr = self.new_ref(st, list)
                 st.heap['$LEN'] = z3.Store(self.harr(st, '$LEN'), nr, self.list_len(st, Val.r(v.t)))
                 st.heap['$ELEM'] = z3.Store(self.harr(st, '$ELEM'), nr, fresh('listof', z3.ArraySort(IntS, Val)))
+                st.heap['$OFF'] = z3.Store(self.harr(st, '$OFF'), nr, z3.IntVal(0))
                 self.trust('list(set): elements in unspecified order (unconstrained)')
                 return V(mkR(nr), parse_spec('list'))
             raise EngineError('list() of %r' % (v,))
@@ -608,6 +621,7 @@ class CallMixin(object):
         st.heap['$LEN'] = z3.Store(self.harr(st, '$LEN'), nr, self.list_len(st, r))
         el = self.harr(st, '$ELEM')
         st.heap['$ELEM'] = z3.Store(el, nr, z3.Select(el, r))
+        st.heap['$OFF'] = z3.Store(self.harr(st, '$OFF'), nr, self.list_off(st, r))
         return V(mkR(nr), TypeSpec('list', (), False, v.hint.elem))
 
     def call_sorted(self, st, args, kwargs, line):
@@ -788,7 +802,7 @@ class CallMixin(object):
             hv = self.as_v(st, args[0])
             n = self.list_len(st, r)
             el = self.harr(st, '$ELEM')
-            st.heap['$ELEM'] = z3.Store(el, r, z3.Store(z3.Select(el, r), n, hv.t))
+            st.heap['$ELEM'] = z3.Store(el, r, z3.Store(z3.Select(el, r), self.list_off(st, r) + n, hv.t))
             st.heap['$LEN'] = z3.Store(self.harr(st, '$LEN'), r, n + 1)
             return self.lift(None)
         if name == 'pop':
@@ -803,11 +817,7 @@ class CallMixin(object):
                 if ci != 0:
                     raise EngineError('list.pop(i) with i != 0')
                 t = self.list_elem(st, r, z3.IntVal(0))
-                el = self.harr(st, '$ELEM')
-                old = z3.Select(el, r)
-                j = z3.Int('j!shift')
-                shifted = z3.Lambda([j], z3.Select(old, j + 1))
-                st.heap['$ELEM'] = z3.Store(el, r, shifted)
+                st.heap['$OFF'] = z3.Store(self.harr(st, '$OFF'), r, self.list_off(st, r) + 1)
                 st.heap['$LEN'] = z3.Store(self.harr(st, '$LEN'), r, n - 1)
             if l.hint.elem is not None:
                 self.assume(st, l.hint.elem.assumption(t))
@@ -905,6 +915,7 @@ class CallMixin(object):
                 self.assume(st, z3.Implies(mx >= 0, n <= mx + 1))
             st.heap['$LEN'] = z3.Store(self.harr(st, '$LEN'), nr, n)
             st.heap['$ELEM'] = z3.Store(self.harr(st, '$ELEM'), nr, uarr(x, sep, mx))
+            st.heap['$OFF'] = z3.Store(self.harr(st, '$OFF'), nr, z3.IntVal(0))
             return V(mkR(nr), parse_spec('list[str]'))
         if name in ('encode', 'decode'):
             raise EngineError('str.%s needs contract-level treatment' % name)
@@ -926,6 +937,7 @@ class CallMixin(object):
             uf = self.get_uf('str_join', StrS, z3.ArraySort(IntS, Val), IntS, StrS)
             self.trust('str.join over a symbolic list: uninterpreted function of (sep, elements, length)')
             r = Val.r(seq.t)
+            self.assume(st, self.list_off(st, r) == 0)     # join over windowed lists is not modelled
             return V(mkS(uf(Val.s(sep.t), z3.Select(self.harr(st, '$ELEM'), r), self.list_len(st, r))), parse_spec('str'))
         if isinstance(seq, PyObj) and isinstance(seq.o, tuple) and seq.o and seq.o[0] == 'dictview':
             uf = self.get_uf('str_join_dict', StrS, DMapInner, StrS)
